@@ -133,6 +133,7 @@ RE_IMM = re.compile(rf"^\$({_NUM})$")
 RE_REG = re.compile(rf"^({_REG})$")
 RE_MEM = re.compile(rf"^({_NUM})?\(({_REG})?(?:,({_REG}),([1248]))?\)$")
 RE_ADDR = re.compile(r"^[0-9a-f]+$")
+RE_ADDR0X = re.compile(r"^0x[0-9a-fA-F]+$")
 
 
 def normalize_operand(att: str) -> Optional[str]:
@@ -157,13 +158,22 @@ def normalize_operand(att: str) -> Optional[str]:
         return f"[{a}+{b}*{c}+{k}]" if k is not None else f"[{a}+{b}*{c}]"
     if RE_ADDR.match(att):
         return att
+    if RE_ADDR0X.match(att):
+        return att           # a target / absolute address printed with 0x (objdump -b binary, PE listings): as printed
     return None
 
 
+RE_MEM2 = re.compile(rf"^({_NUM})?\(({_REG}),({_REG})\)$")        # 16-bit addressing: base and index, no scale
+
+
 def mem_components(att: str):
-    """(k, a, b, c) of an AT&T memory operand in the C06 forms, else None."""
+    """(k, a, b, c) of an AT&T memory operand in the C06 forms, else None. The two-register form of 16-bit addressing k(a,b) has
+    the components k, a, b and NO scale."""
     m = RE_MEM.match(att)
-    if not m or (m.group(2) is None and m.group(3) is None):
+    if not m:
+        m2 = RE_MEM2.match(att)
+        return (m2.group(1), m2.group(2), m2.group(3), None) if m2 else None
+    if m.group(2) is None and m.group(3) is None:
         return None
     return m.group(1), m.group(2), m.group(3), m.group(4)
 
